@@ -23,7 +23,6 @@ from enum import Enum
 from struct import Struct, error as StructError, pack
 from uuid import UUID, uuid4 as get_uuid
 import builtins
-import collections
 import copy
 import io
 import re
@@ -1479,7 +1478,7 @@ class Element(Mapping[str, Attribute]):
         # This is a (attr, index, uuid, line_num) tuple.
         fixups: list[tuple[Attribute, Optional[int], UUID, int]] = []
         # Ensure these reuse the same objects.
-        stubs: dict[UUID, StubElement] = collections.defaultdict(StubElement.stub)
+        stubs: dict[UUID, StubElement] = _StubCache()
 
         elements = []
 
@@ -2141,6 +2140,13 @@ class StubElement(Element):
             return '<Null Element>'
         else:
             raise AssertionError(self._type)
+
+
+class _StubCache(dict[UUID, StubElement]):
+    """Creates the stub element for a UUID the first time it is looked up."""
+    def __missing__(self, uuid: UUID) -> StubElement:
+        stub = self[uuid] = StubElement.stub(uuid)
+        return stub
 
 
 # Constant for null elements.
